@@ -98,3 +98,65 @@ Proof.
   exists file, b. split; [unfold xb_to_bytes; rewrite Hs; exact Hw'|]. split; [|exact Hsame].
   unfold xb_from_bytes. rewrite Hfb. exact Hl.
 Qed.
+
+(* ------------------------------------------------------------------ re-save of whole Tundra files *)
+(* the width SauceData::extract reports is a u16 (or twice a u8): never negative (same statement as C02's
+   extract_width_nonneg, proved here again to keep this file independent of C02's dispatch table) *)
+Lemma interpret_width_nonneg dt ft t1 t2 f ti : 0 <= t1 ->
+  0 <= fst (fst (fst (fst (fst (fst (Sauce.interpret dt ft t1 t2 f ti)))))).
+Proof.
+  intro H. unfold Sauce.interpret.
+  repeat match goal with |- context [if ?c then _ else _] => destruct c end; cbn [fst]; first [apply N2Z.is_nonneg | lia].
+Qed.
+
+Ltac inv_extract H :=
+  repeat (cbn [Sauce.bind] in H;
+          match type of H with
+          | Sauce.bind ?r _ = _ => let E := fresh "E" in destruct r eqn:E; cbn [Sauce.bind] in H; try discriminate H
+          | (if ?c then _ else _) = _ => destruct c; try discriminate H
+          | match ?x with _ => _ end = _ => let E := fresh "E" in destruct x eqn:E; try discriminate H
+          end).
+
+Lemma extract_width_nonneg' dp data m : Sauce.extract dp data = Sauce.Ok (Some m) -> 0 <= Sauce.s_width m.
+Proof.
+  unfold Sauce.extract. intro H.
+  inv_extract H.
+  injection H as <-. cbn [Sauce.s_width].
+  match goal with E : Sauce.interpret ?dt ?ft ?t1 ?t2 ?f ?ti = _ |- _ =>
+    pose proof (interpret_width_nonneg dt ft t1 t2 f ti ltac:(lia)) as Hw; rewrite E in Hw; exact Hw end.
+Qed.
+
+Lemma load_tnd_fonts data s b : load_tnd data s = Ok b -> b_fonts b = [(0%N, default_font)].
+Proof.
+  unfold load_tnd. intro H.
+  destruct (length data <? _)%nat; [discriminate|]. destruct data as [|v rest]; [discriminate|].
+  destruct (negb _); [discriminate|].
+  match type of H with bind ?r _ = _ => destruct r as [[L pal]| |]; cbn [bind] in H; try discriminate H end.
+  injection H as <-. cbn [b_fonts set_height set_width set_pal set_layer set_modes set_ice].
+  destruct s as [s|]; [|reflexivity]. unfold set_sauce.
+  destruct ((s_w s =? 0) || (s_w s >? 1000)); destruct (s_ice s); reflexivity.
+Qed.
+
+(* every .tnd file Buffer::from_bytes accepts - ANY SAUCE record or none: what extract hands the loader is always acceptable -
+   is written back (with its SAUCE record) and read again as the same picture; the three size conditions are the u32
+   colour-index limits of the format model (see notes/C05.md), not conditions on the SAUCE record any more *)
+Lemma tnd_file_resave_proof : forall dp bytes b,
+  is_bytes bytes -> tnd_from_bytes dp bytes = Ok b ->
+  0 <= b_h b -> b_w b * b_h b < 1073741824 -> (N.of_nat (length bytes) < 536870912)%N ->
+  forall name ws d date, SauceSpec.wf (wbuf_of (pic_of b) name ws) -> length d = 8%nat -> dp d = Some date ->
+  exists file' b', tnd_to_bytes true (pic_of b) name ws d = Ok file' /\ tnd_from_bytes dp file' = Ok b' /\
+                   same_picture_rgb (pic_of b) (pic_of b').
+Proof.
+  intros dp bytes b Hbytes Hload Hh0 Hsz Hlen name ws d date Hwf Hd Hdp.
+  unfold tnd_from_bytes, from_bytes_with in Hload.
+  destruct (Sauce.split dp bytes) as [[content m]|e|s0] eqn:Es; cbn [lift bind] in Hload; try discriminate.
+  destruct (SauceProofs.split_is_prefix_proof dp bytes content m Es) as (cut & Hcut & Hm).
+  assert (Hc : is_bytes content) by (unfold is_bytes in *; rewrite Hcut in Hbytes; apply Forall_app in Hbytes; apply Hbytes).
+  assert (Hcl : (N.of_nat (length content) < 536870912)%N) by (rewrite Hcut, app_length in Hlen; lia).
+  assert (Hs : tnd_sauce_like (option_map sauce_view m)).
+  { destruct m as [sm|]; [|exact I]. destruct Hm as (_ & He). cbn. eapply extract_width_nonneg', He. }
+  apply tnd_fixed_agrees in Hload.
+  pose proof (tnd_load_representable content _ b Hc Hs Hload Hh0 Hsz Hcl) as Hr.
+  apply (tnd_file_roundtrip_proof dp (pic_of b) name ws d date Hr); try assumption.
+  exists default_font. cbn [pic_of p_fonts]. rewrite (load_tnd_fonts _ _ _ Hload). reflexivity.
+Qed.
